@@ -47,7 +47,7 @@ class AbstractHelp(Component):
         self, layout, argument
     ):  # type: (BlockLayout, Argument) -> None
         description = argument.description or ""
-        name = "<c1><{}></c1>".format(argument.name)
+        name = "<c1>\\<{}></c1>".format(argument.name)
         default = argument.default
 
         if default is not None and (not isinstance(default, list) or len(default) > 0):
@@ -129,9 +129,9 @@ class AbstractHelp(Component):
         for option in args_format.get_options(False).values():
             # \xC2\xA0 is a non-breaking space
             if option.is_value_required():
-                fmt = "{}\u00A0<{}>"
+                fmt = "{}\u00A0\\<{}>"
             elif option.is_value_optional():
-                fmt = "{}\u00A0[<{}>]"
+                fmt = "{}\u00A0[\\<{}>]"
             else:
                 fmt = "{}"
 
@@ -148,13 +148,13 @@ class AbstractHelp(Component):
             arg_name = argument.name
 
             argument_parts.append(
-                ("<{}>" if argument.is_required() else "[<{}>]").format(
+                ("\\<{}>" if argument.is_required() else "[\\<{}>]").format(
                     arg_name + str(int(argument.is_multi_valued()) or "")
                 )
             )
 
             if argument.is_multi_valued():
-                argument_parts.append("... [<{}N>]".format(arg_name))
+                argument_parts.append("... [\\<{}N>]".format(arg_name))
 
         args_opts = " ".join(argument_parts)
         name = " ".join(name_parts)
